@@ -612,7 +612,7 @@ Proof.
   destruct (a_wf c I t) as (Hok & _ & _). unfold ipc_ok in Hok. rewrite Hpc in Hok.
   assert (Hni : is_idle (c_pool c t) = false) by (unfold is_idle; rewrite Hpc; reflexivity).
   assert (Hplain : forall r, res_cover e r = [] ->
-            IInvA (commit c t (c_sh c) (set_pc (c_pool c t) PIdle) (LAtom t SF ALoad 0 (bN (s_f (c_sh c)))) [ERet t r []])).
+            IInvA (commit c t (c_sh c) (set_pc (c_pool c t) PIdle) (LAtom t SF ALoad 0 (bN (s_f (c_sh c))) ord_completed_load_try_get_len) [ERet t r []])).
   { intros r Hr. apply iA_ret_plain; try assumption; try reflexivity; rewrite Hpc; reflexivity. }
   destruct (s_f (c_sh c)).
   - apply Hplain. destruct hm; reflexivity.
@@ -670,7 +670,7 @@ Proof.
   unfold step. rewrite Hpc.
   assert (Hgen : forall d, IInvA (commit c t (with_f (c_sh c) true)
             {| t_pc := PIdle; t_todo := t_todo (c_pool c t); t_buf := t_buf (c_pool c t); t_acc := [] |}
-            (LAtom t SF AStore 1 0) [ERet t (RPanic PkSource (rev (t_acc (c_pool c t)))) d])).
+            (LAtom t SF AStore 1 0 ord_completed_store_unwind) [ERet t (RPanic PkSource (rev (t_acc (c_pool c t)))) d])).
   { intros d. apply iA_unw_gen with q b g; try assumption; try reflexivity.
     cbn [t_buf]. intros bf' H. exists bf'. split; [exact H|reflexivity]. }
   destruct (q_ctx q); [|apply Hgen].
@@ -807,7 +807,7 @@ Proof.
     assert (Hm : forall v, q_mode q <> MSingle v) by (intros v Mv; specialize (Hg1 v Mv); discriminate Hg1).
     cbn [length ascN].
     assert (Hend : IInvA (finish e c t (with_y (c_sh c) (s_y (c_sh c) + q_n q)) (c_pool c t)
-                            (LAtom t SY AAdd (q_n q) (s_y (c_sh c))) q (Ok PREnd))).
+                            (LAtom t SY AAdd (q_n q) (s_y (c_sh c)) (o_pub q)) q (Ok PREnd))).
     { apply iA_finish_end with (X := [(s_y (c_sh c), N.of_nat 0)]); try assumption.
       - rewrite Hpc. reflexivity.
       - intros a [<-|[]]. reflexivity.
@@ -821,7 +821,7 @@ Proof.
     assert (Hruns : runs_of b (ascN b k) = [mk_run (Some b) (val_of e b) cnt]).
     { rewrite Ek. rewrite runs_of_asc, val_of_iter. unfold cnt. rewrite Ek. reflexivity. }
     assert (Hlen : N.of_nat (length (ascN b k)) = cnt) by (rewrite ascN_length; reflexivity).
-    assert (Hgoal : IInvA (finish e c t (with_y (c_sh c) (b + q_n q)) (c_pool c t) (LAtom t SY AAdd (q_n q) b) q
+    assert (Hgoal : IInvA (finish e c t (with_y (c_sh c) (b + q_n q)) (c_pool c t) (LAtom t SY AAdd (q_n q) b (o_pub q)) q
                              (Ok (PRGot b [mk_run (Some b) (val_of e b) cnt] cnt)))).
     { destruct (top_below c t b cnt I Hin Hheld ltac:(lia) Hk1) as [Hbc Hba].
       pose proof (a_call c I t) as Hcall. unfold icall_ok in Hcall. rewrite Hni in Hcall. destruct Hcall as (o & older & Hpend & Hres).
@@ -908,10 +908,10 @@ Proof.
             unfold acc_iv in Ha4. rewrite Ha4, andb_true_r. apply orb_true_iff. right. apply N.leb_le.
             pose proof (cov_suffix_maxhi e _ _ Hsuf). lia. }
     rewrite Hruns, Hlen.
-    assert (Hvs : match ascN b k with [] => finish e c t (with_y (c_sh c) (b + q_n q)) (c_pool c t) (LAtom t SY AAdd (q_n q) b) q (Ok PREnd)
-                  | _ :: _ => finish e c t (with_y (c_sh c) (b + q_n q)) (c_pool c t) (LAtom t SY AAdd (q_n q) b) q
+    assert (Hvs : match ascN b k with [] => finish e c t (with_y (c_sh c) (b + q_n q)) (c_pool c t) (LAtom t SY AAdd (q_n q) b (o_pub q)) q (Ok PREnd)
+                  | _ :: _ => finish e c t (with_y (c_sh c) (b + q_n q)) (c_pool c t) (LAtom t SY AAdd (q_n q) b (o_pub q)) q
                                 (Ok (PRGot b [mk_run (Some b) (val_of e b) cnt] cnt)) end
-                  = finish e c t (with_y (c_sh c) (b + q_n q)) (c_pool c t) (LAtom t SY AAdd (q_n q) b) q
+                  = finish e c t (with_y (c_sh c) (b + q_n q)) (c_pool c t) (LAtom t SY AAdd (q_n q) b (o_pub q)) q
                                 (Ok (PRGot b [mk_run (Some b) (val_of e b) cnt] cnt))) by (rewrite Ek; reflexivity).
     destruct (q_mode q); [exact Hgoal|rewrite Hvs; exact Hgoal|rewrite Hvs; exact Hgoal].
 Qed.
@@ -921,11 +921,11 @@ Lemma pub_eq c t q b g :
   IInvA c -> t_pc (c_pool c t) = PPub q b g -> s_y (c_sh c) + pub_incr q < W ->
   b = s_y (c_sh c) /\ wf_reqI q /\
   ((g = [] /\ s_cur (c_sh c) = e_len e /\
-    step e c t = finish e c t (with_y (c_sh c) (b + q_n q)) (c_pool c t) (LAtom t SY AAdd (q_n q) b) q (Ok PREnd))
+    step e c t = finish e c t (with_y (c_sh c) (b + q_n q)) (c_pool c t) (LAtom t SY AAdd (q_n q) b (o_pub q)) q (Ok PREnd))
    \/
    (exists cnt, cnt = N.of_nat (length g) /\ 1 <= cnt /\ cnt <= q_n q /\ b + cnt = s_cur (c_sh c) /\ b < e_len e /\
       (cnt < q_n q -> b + cnt = e_len e) /\ (forall v, q_mode q = MSingle v -> cnt = 1) /\
-      step e c t = finish e c t (with_y (c_sh c) (b + q_n q)) (c_pool c t) (LAtom t SY AAdd (q_n q) b) q
+      step e c t = finish e c t (with_y (c_sh c) (b + q_n q)) (c_pool c t) (LAtom t SY AAdd (q_n q) b (o_pub q)) q
                           (Ok (PRGot b [mk_run (Some b) (val_of e b) cnt] cnt)))).
 Proof.
   intros I Hpc Hw.
@@ -992,7 +992,7 @@ Proof.
   destruct (t_pc (c_pool c t)) as [|q|q b|q b|q b got|q b got|q b got|q b got| |hm|hm] eqn:Hpc; auto.
   - rewrite (istep_res e Hk c t q Hpc). cbn [commit c_labels]. intros H. inversion H as [|? ? H1 H2]; subst. exact H1.
   - unfold step. rewrite Hpc.
-    assert (forall sh pr, nowrap (c_labels (finish e c t sh (c_pool c t) (LAtom t SY AAdd (pub_incr q) (s_y (c_sh c))) q pr)) ->
+    assert (forall sh pr, nowrap (c_labels (finish e c t sh (c_pool c t) (LAtom t SY AAdd (pub_incr q) (s_y (c_sh c)) (o_pub q)) q pr)) ->
                           s_y (c_sh c) + pub_incr q < W) as Hf.
     { intros sh pr. rewrite finish_labels. intros H. inversion H as [|? ? H1 H2]; subst. exact H1. }
     destruct (q_mode q); [apply Hf| |].
